@@ -233,6 +233,16 @@ template <class F> std::string exec(const F& f, const Toks& a) {
     else if (op == "inv")      { Pol A = P(2), R = junk(1); PD.inv(R, A); outP(R); }
     else if (op == "invin")    { Pol R = P(2); PD.invin(R); outP(R); }
     else if (op == "shiftin")  { Pol R = P(2); PD.shiftin(R, (int)num(a.at(3))); outP(R); }
+    else if (op == "random") {   // random / nonzerorandom overloads: a[2] = 0|s|d|b, a[3] = nonzerorandom?, a[4] = argument
+        const std::string& ov = a.at(2); const bool nzf = num(a.at(3)) != 0; const long long v = num(a.at(4));
+        GivRandom gen((uint64_t)(h | 1));
+        Pol R = junk(3);
+        if (ov == "0") { if (nzf) PD.nonzerorandom(gen, R); else PD.random(gen, R); }
+        else if (ov == "s") { if (nzf) PD.nonzerorandom(gen, R, (uint64_t)v); else PD.random(gen, R, (uint64_t)v); }
+        else if (ov == "d") { if (nzf) PD.nonzerorandom(gen, R, Degree(v)); else PD.random(gen, R, Degree(v)); }
+        else { Pol B((size_t)v, f.one); if (nzf) PD.nonzerorandom(gen, R, B); else PD.random(gen, R, B); }
+        outP(R);
+    }
     else if (op == "modpowxin"){ Pol R = P(2); PD.modpowxin(R, Degree(num(a.at(3)))); outP(R); }
     else if (op == "wrappers") {   // givpoly1dense.h: characteristic / cardinality / setDegree / getdomain
         Pol A = P(2);
@@ -499,6 +509,14 @@ static void gen_field(Gen& g, const std::string& tier, const std::string& profil
             g.emit("setentry", {A, g.scalar((int)g.rng.below(4)), H((long)g.rng.below(d + 4))});
             g.emit("modinv", {A, g.nz()}); g.emit("modv", {A, g.nz()});
             g.emit("shiftin", {A, H((long)g.rng.below(4))});
+            if (!g.isQ && rep == 0) {   // shapes of random / nonzerorandom: no argument, size (0 included), Degree (deginfty included), like b
+                for (const char* nzf : {"0", "1"}) {
+                    g.emit("random", {"0", nzf, "0"});
+                    g.emit("random", {"s", nzf, H(d + 1)});
+                    g.emit("random", {"d", nzf, H(d)});
+                    g.emit("random", {"b", nzf, H(d + 1)});
+                }
+            }
             g.emit("modpowxin", {A, H((long)g.rng.below(d + 3))});
             if (d == 0) { g.emit("inv", {A}); g.emit("invin", {A}); }
             if (rep == 0) {
